@@ -2118,6 +2118,174 @@ def gauss_integrate_stream(ctx, ncases):
         ctx.case(sample=None, nontrivial_key=repr(sorted(c.items(), key=str)) if results and Rd else None)
 
 
+# ---- direct Contraction(...) over binder-carrying Gaussian mixtures ---------------------------------------------
+
+def _nadd(a, b):
+    """named arrays (names, ndarray): broadcasted sum"""
+    names = list(a[0]) + [x for x in b[0] if x not in a[0]]
+
+    def expand(t):
+        arr = t[1]
+        perm = [t[0].index(x) for x in names if x in t[0]]
+        arr = np.transpose(arr, perm) if arr.ndim else arr
+        shape = [arr.shape[[x for x in names if x in t[0]].index(x)] if x in t[0] else 1 for x in names]
+        return arr.reshape(shape)
+    return names, expand(a) + expand(b)
+
+
+def _nlse(a, name):
+    ax = a[0].index(name)
+    return [x for x in a[0] if x != name], np.logaddexp.reduce(a[1], axis=ax)
+
+
+def _gcon_case(rng):
+    k, m = rng.sample(POOL, 2)
+    K, Mm = rng.choice([2, 3]), rng.choice([2, 3])
+    two = rng.random() < 0.5
+    inner = rng.choice(["plain", "red-k", "red-k", "red-all"] if two else ["plain", "red-k", "red-k"])
+    Rin = [] if inner == "plain" else [k] if inner == "red-k" else [k, m]
+    F = [x for x in ([k, m] if two else [k]) if x not in Rin]
+    j = rng.choice(POOL)
+    sizes = {k: K, m: Mm}
+    J = sizes[j] if j in F else rng.choice([2, 3])
+    nested = rng.random() < 0.3
+    l = rng.choice(POOL)
+    after = [x for x in F if x != j]
+    L = sizes[l] if l in after else rng.choice([2, 3])
+    return dict(k=k, m=m if two else None, K=K, M=Mm, Rin=Rin, j=j, J=J, order=rng.randrange(2),
+                nested=nested, l=l, L=L, order2=rng.randrange(2),
+                t=[[round(rng.uniform(-1, 1), 2) for _ in range(Mm if two else 1)] for _ in range(K)],
+                mean=[round(rng.uniform(-2, 2), 2) for _ in range(K)], prec=[round(rng.uniform(0.5, 3), 2) for _ in range(K)],
+                w=[round(rng.uniform(-1, 1), 2) for _ in range(3)], w3=[round(rng.uniform(-1, 1), 2) for _ in range(3)],
+                x0=round(rng.uniform(-1, 1), 2))
+
+
+def _gcon_oracle(c):
+    k, m = c["k"], c["m"]
+    mean, prec = np.array(c["mean"]), np.array(c["prec"])
+    g = ([k], -0.5 * prec * (c["x0"] - mean) ** 2)
+    t = ([k, m], np.array(c["t"])) if m else ([k], np.array(c["t"])[:, 0])
+    a = _nadd(t, g)
+    for nm_ in c["Rin"]:
+        a = _nlse(a, nm_)
+    a = _nlse(_nadd(a, ([c["j"]], np.array(c["w"][:c["J"]]))), c["j"])
+    if c["nested"]:
+        a = _nlse(_nadd(a, ([c["l"]], np.array(c["w3"][:c["L"]]))), c["l"])
+    return a
+
+
+def _gcon_build(c, ren=None, flip=False):
+    """ren: {'in:<name>': new, 'j': new, 'l': new} renames the binders (twin); flip: other operand order"""
+    from funsor.gaussian import Gaussian
+    ren = ren or {}
+    k, m = c["k"], c["m"]
+    K, Mm = c["K"], c["M"]
+    kk = ren.get("in:" + k, k) if k in c["Rin"] else k
+    mm = (ren.get("in:" + m, m) if m in c["Rin"] else m) if m else None
+    F = [x for x in ([k, m] if m else [k]) if x not in c["Rin"]]
+    jn = ren.get("j", c["j"])
+    ln = ren.get("l", c["l"])
+    # a free name of the mixture that the outer binder binds must follow the outer binder's renaming
+    after = [x for x in F if x != c["j"]]
+    def outer_name(x):
+        if x == c["j"]:
+            return jn
+        if c["nested"] and x == c["l"] and x in after:
+            return ln
+        return x
+    if k not in c["Rin"]:
+        kk = outer_name(k)
+    if m and m not in c["Rin"]:
+        mm = outer_name(m)
+    tins = OrderedDict([(kk, Bint[K])] + ([(mm, Bint[Mm])] if m else []))
+    t = Tensor(np.array(c["t"]) if m else np.array(c["t"])[:, 0], tins)
+    g = Gaussian(mean=np.array(c["mean"]).reshape(K, 1), precision=np.array(c["prec"]).reshape(K, 1, 1),
+                 inputs=OrderedDict([(kk, Bint[K]), ("x", Real)]))
+    mix = t + g
+    if c["Rin"]:
+        mix = mix.reduce(ops.logaddexp, frozenset([kk] + ([mm] if (m and m in c["Rin"]) else [])))
+    w = Tensor(np.array(c["w"][:c["J"]]), OrderedDict([(jn, Bint[c["J"]])]))
+    terms = (mix, w) if (c["order"] == 0) != flip else (w, mix)
+    res = Contraction(ops.logaddexp, ops.add, frozenset({Variable(jn, Bint[c["J"]])}), *terms)
+    if c["nested"]:
+        w3 = Tensor(np.array(c["w3"][:c["L"]]), OrderedDict([(ln, Bint[c["L"]])]))
+        terms = (res, w3) if (c["order2"] == 0) != flip else (w3, res)
+        res = Contraction(ops.logaddexp, ops.add, frozenset({Variable(ln, Bint[c["L"]])}), *terms)
+    return res
+
+
+def gauss_contraction_stream(ctx, ncases):
+    """Contraction(logaddexp, add, {j}, mix, w) built DIRECTLY, mix a Gaussian mixture that carries its own (lazy)
+    logaddexp binder; binder names from the pool (outer named like the inner one, …); normalize rules
+    normalize_contraction_commute_joint must keep `reduced_vars | mixture.reduced_vars`."""
+    rng = ctx.rng
+    for _ in range(ncases):
+        c = _gcon_case(rng)
+        names, E = _gcon_oracle(c)
+        ren = {"j": "u3", "l": "u4"}
+        for q, nm_ in enumerate(c["Rin"]):
+            ren["in:" + nm_] = f"u{q + 1}"
+        ctx.count("gcon:inner:" + ("plain" if not c["Rin"] else "reduced-%d" % len(c["Rin"])) + (":nested" if c["nested"] else ""))
+        if c["j"] in c["Rin"]:
+            ctx.count("gcon:outer-named-like-inner")
+        bad = None
+        got_any = False
+        for mode in ("eager", "normalize", "lazy"):
+            for variant in ("plain", "twin", "flip"):
+                try:
+                    kw = dict(ren=ren if variant == "twin" else None, flip=variant == "flip")
+                    if mode == "eager":
+                        t = _gcon_build(c, **kw)
+                        res = t
+                    else:
+                        with {"normalize": normalize, "lazy": lazy}[mode]:
+                            t = _gcon_build(c, **kw)
+                        res = reinterpret(t)
+                    pre = res
+                    if "x" in res.inputs:
+                        res = res(x=Tensor(np.array(c["x0"])))
+                except DECLINE + (RecursionError,) as e:
+                    ctx.count(f"gcon:{mode}:declined:{type(e).__name__}")
+                    continue
+                want_inputs = set(names) | {"x"}
+                if set(pre.inputs) != want_inputs:
+                    bad = (mode, variant, f"inputs {sorted(pre.inputs)}, free names are {sorted(want_inputs)}")
+                    break
+                nm2 = check_names(pre, names, {"x"}, exact_inputs=True) if not isinstance(pre, (Tensor, Number)) else None
+                if nm2:
+                    bad = (mode, variant, f"{nm2[0]}: {nm2[1]}")
+                    break
+                if not isinstance(res, (Tensor, Number)):
+                    ctx.count(f"gcon:{mode}:lazy-result")
+                    continue
+                order = [(x, E.shape[q]) for q, x in enumerate(names)]
+                tab = np.asarray(futil.table(res, order) if order else res.data, dtype=float).reshape(np.shape(E))
+                if not np.allclose(tab, E, rtol=1e-6, atol=1e-8):
+                    bad = (mode, variant, f"value {tab.tolist()} != brute force {np.asarray(E).tolist()}")
+                    break
+                got_any = True
+                ctx.count(f"gcon:{mode}:value")
+            if bad:
+                break
+        if bad:
+            ctx.fail("input", "C05.contraction-over-mixture", witness={"case": c, "mode": bad[0], "variant": bad[1]},
+                     expected=f"inputs {sorted(set(names) | {'x'})}, value {np.asarray(E).tolist()} at x={c['x0']}",
+                     got=bad[2], python=GCON_PY.format(case=c))
+        ctx.case(nontrivial_key=repr(sorted(c.items(), key=str)) if got_any and c["Rin"] else None)
+
+
+GCON_PY = """import sys
+sys.path.insert(0, '/verif')
+from fv.harness import c05
+case = {case}
+names, E = c05._gcon_oracle(case)
+t = c05._gcon_build(case)
+print('inputs', dict(t.inputs), 'free names', names + ['x'])
+print(t)
+FAILS = set(t.inputs) != set(names) | {{'x'}}
+"""
+
+
 GAUSS_PY = """import sys
 sys.path.insert(0, '/verif')
 from fv.harness import c05
@@ -2341,6 +2509,7 @@ def correspond(ctx):
     extras_stream(ctx, 80 if quick else 600)
     thread_stream(ctx)
     gauss_integrate_stream(ctx, 200 if quick else 2000)
+    gauss_contraction_stream(ctx, 120 if quick else 1200)
     for name, fid, stream in (("shared-binder", KF, shared_binder_stream), ("approximate", KF2, approximate_stream)):
         try:
             stream(ctx)
